@@ -16955,9 +16955,11 @@ type BGPMessage struct {
 }
 
 func parseBody(h *BGPHeader, data []byte, options ...*MarshallingOption) (*BGPMessage, error) {
-	if len(data) < int(h.Len)-BGP_HEADER_LENGTH {
+	if int(h.Len) < BGP_HEADER_LENGTH || len(data) < int(h.Len)-BGP_HEADER_LENGTH {
 		return nil, NewMessageError(BGP_ERROR_MESSAGE_HEADER_ERROR, BGP_ERROR_SUB_BAD_MESSAGE_LENGTH, nil, "Not all BGP message bytes available")
 	}
+	// the body is what the header declares, whatever else the caller's buffer holds
+	data = data[:int(h.Len)-BGP_HEADER_LENGTH]
 	msg := &BGPMessage{Header: *h}
 
 	switch msg.Header.Type {
